@@ -452,7 +452,7 @@ OnFinal(m, ev) ==
 Step(m, ev) ==
   CASE ev.e = "Scenario" -> [m EXCEPT !.conf = ev.conf, !.kinds = ev.kinds]
     [] ev.e = "Init" -> Check([m EXCEPT !.initOk = ev.ok, !.tInit = ev.t], "C09.bad_configuration_refused_at_initialization",
-                              (m.conf.expect_init = "fail") = ~ev.ok, ev)
+                              m.conf.expect_init = "any" \/ (m.conf.expect_init = "fail") = ~ev.ok, ev)
     [] ev.e = "Feed" -> OnFeed(m, ev)
     [] ev.e = "ReadErr" -> OnReadErr(m, ev)
     [] ev.e = "Ev" -> OnEv(m, ev)
